@@ -176,13 +176,29 @@ def literal_cases(rng, n):
     return out
 
 
+def type_matrix():
+    """every comparison operator on every pair of operand types (number, text, truth value, 空, list), written as literals, alone
+    and as the evaluated operand of 且 / 或: which pairs give a truth value and which an error (and which error) is fixed"""
+    lits = {"num": Num(1.0), "str": Str("a"), "bool": Var("真"), "null": Var("空"), "list": Arr([Num(1.0)])}
+    out = []
+    for op in ["gt", "gte", "lt", "lte", "eq", "neq", "xeq", "xneq"]:
+        for lt in lits:
+            for rt in lits:
+                e = Logic(op, lits[lt], lits[rt])
+                out.append((([], [Return(e)], []), None))
+                if op in ("gt", "lte") or lt == "null":
+                    out.append((([], [Return(Logic("or", e, Var("真")))], []), None))
+                    out.append((([], [Return(Logic("and", Var("真"), e))], []), None))
+    return out
+
+
 def run(chk, replay=None):
     rng = chk.rng
     if replay is not None:
         semprop.run_property(chk, "C01", "c01", [], 0, 0, replay=replay, what="expression value differs from the documented value")
         return
     n = 260 if chk.tier == "quick" else 4000
-    cases = [gen_case(rng) for _ in range(n)] + literal_cases(rng, 40 if chk.tier == "quick" else 400)
+    cases = [gen_case(rng) for _ in range(n)] + literal_cases(rng, 40 if chk.tier == "quick" else 400) + type_matrix()
     # the catalogue's witness
     cases.append((([], [Return(Logic("xeq", Map([("A", Num(1)), ("B", Num(2)), ("C", Num(3))]), Map([("A", Num(1)), ("B", Num(9)), ("C", Num(8))])))], []), None))
     cases.append((([], [Return(Logic("xeq", Map([("B", Num(2)), ("A", Num(1))]), Map([("A", Num(1)), ("B", Num(2))])))], []), None))
